@@ -1,4 +1,5 @@
 import PepperProofs.ConstraintGenFiles
+import PepperProofs.ConstraintGenLoad
 /-!
 # C05 — the constraint files honour the documented spuriousSSM input contract
 
@@ -10,7 +11,7 @@ Model: `PepperModel/ConstraintGen.lean` — `getConstraints` (= `Convert.get_con
 namespace Pepper.C05
 open Pepper Pepper.Pil Pepper.ConstraintGen
 
-/-- **The written files satisfy the contract and are accepted.**  Whenever `get_constraints` returns arrays (after
+/-- **The written files satisfy the contract and are accepted.**  For every document the reader accepts: whenever `get_constraints` returns arrays (after
     a successful seeding), the three texts `design()` writes are read back by the model of `load_input_files` to a
     triple `t` of three arrays of one length which satisfies the documented contract `Ssm.Contract`: 1-based
     indices in range; template blank exactly where `eq = 0`, and there `wc = -1`; every template letter a code;
@@ -24,13 +25,14 @@ open Pepper Pepper.Pil Pepper.ConstraintGen
     one blank between strands and two between complexes", `sepsOk` against the layout's strand list) — it is a
     statement about where the layout puts the strands (C04's `layout_exact`), checked by the harness on every
     sampled document. -/
-theorem files_satisfy_contract_partial {mode : Layout} {spec : Spec} (ok : SpecCodes Generated.pilTable spec)
+theorem files_satisfy_contract_partial {mode : Layout} {stmts : List Stmt} {spec : Spec}
+    (hload : Pil.load Generated.nupackTable stmts {} = .ok spec)
     {s : Seeds} {c : Cons} (hs : seeds mode spec = .ok s) (hb : build s = .ok c)
     {a : Arrays} (ha : getConstraints mode spec = .ok a) :
     ∃ t, readTriple (ssmFiles a) = some t ∧ t.eq.length = t.N ∧ t.wc.length = t.N ∧
       Ssm.contractB t = true ∧
       ∀ pick : Nat → Nat, Ssm.testConsistency t (Ssm.constrain t (startOf t pick)) = true := by
-  obtain ⟨wf, h | h | ⟨a', h⟩⟩ := getConstraintsT_spec pil_lawful ok hs hb
+  obtain ⟨wf, h | h | ⟨a', h⟩⟩ := getConstraintsT_spec pil_lawful (load_specCodes hload) hs hb
   · exact absurd (h.1.symm.trans ha) (by simp)
   · exact absurd (h.1.symm.trans ha) (by simp)
   · have e : a' = a := by
@@ -49,5 +51,65 @@ theorem contract_accepted {t : Ssm.Triple} (h : Ssm.contractB t = true) (pick : 
 
 /-- The written numbers are read back unchanged by the model of the `fscanf(" %lf")` loop, for every list. -/
 theorem numbers_read_back (l : List Int) : readInts (printInts l) = l := readInts_printInts l
+
+
+/-! ### non-vacuity: concrete small documents -/
+
+/-- `get_constraints` on a statement list as the reader hands it over -/
+def run (mode : Layout) (l : List Stmt) : Except ConstraintGen.Err Arrays :=
+  match Pil.load Generated.nupackTable l {} with
+  | .ok s => getConstraints mode s
+  | .error _ => .error .assertion
+
+/-- the hypotheses "the seeding succeeds" of the theorems hold on a document -/
+def seeded (mode : Layout) (l : List Stmt) : Bool :=
+  match Pil.load Generated.nupackTable l {} with
+  | .ok s => (match seeds mode s with
+    | .ok sd => (match build sd with | .ok _ => true | .error _ => false)
+    | .error _ => false)
+  | .error _ => false
+
+/-- a duplex: `A = a`, `B = a*`, fully paired; the `S` of the template shows up complemented (`S`) on the other strand -/
+def duplex : List Stmt := [
+  .seq "a" "NNS".toList, .strand "A" false ["a"], .strand "B" false ["a*"],
+  .struct "D" (some "1nt") ["A", "B"] "(((+)))".toList ]
+
+/-- a hairpin pairing a domain of odd length with itself: the middle position is its own partner -/
+def hairpin : List Stmt := [
+  .seq "a" "NNNNN".toList, .strand "A" false ["a", "a"], .struct "H" (some "1nt") ["A"] "((((()))))".toList ]
+
+/-- `D` (AGT) meets `V` (ACG) through an `equal` line: the common part is `R` (AG) -/
+def dv : List Stmt := [
+  .seq "a" "DDD".toList, .seq "b" "VVV".toList, .strand "A" false ["a", "b"],
+  .struct "S" none ["A"] "......".toList, .equal ["a", "b"] ]
+
+def okIs (r : Except ConstraintGen.Err Arrays) (a : Arrays) : Bool :=
+  match r with | .ok b => b == a | .error _ => false
+
+def errIs (r : Except ConstraintGen.Err Arrays) (e : ConstraintGen.Err) : Bool :=
+  match r with | .ok _ => false | .error e' => e' == e
+
+example : seeded .strand duplex = true ∧ seeded .struct duplex = true := by decide +kernel
+
+/-- the three files written for the duplex in the strand layout, byte for byte -/
+example : (match run .strand duplex with
+    | .ok a => ssmFiles a == ⟨"NNS  SNN", "1 2 3 0 0 6 7 8 ", "8 7 6 -1 -1 3 2 1 "⟩
+    | .error _ => false) = true := by decide +kernel
+
+/-- they are read back to a triple that satisfies the whole contract, separators included, and the C program's
+    acceptance test passes on a start sequence -/
+example : (match run .strand duplex with
+    | .ok a => (match readTriple (ssmFiles a) with
+      | some t => SsmContract t [[3], [3]] && Ssm.testConsistency t (Ssm.constrain t (startOf t (fun i => i)))
+      | none => false)
+    | .error _ => false) = true := by decide +kernel
+
+/-- the contract is not trivially true: `wc` pointing at a non-representative, or `eq` not lowest, is rejected -/
+example : Ssm.contractB ⟨"NN".toList, [1, 1], [2, -1]⟩ = false ∧ Ssm.contractB ⟨"NN".toList, [2, 2], [-1, -1]⟩ = false := by
+  decide +kernel
+
+/-- the separator clause is not trivially true either: one blank between two complexes is too few -/
+example : sepsOk "NN N".toList [[2], [1]] = false ∧ sepsOk "NN  N".toList [[2], [1]] = true ∧
+    sepsOk "NN N".toList [[2, 1]] = true := by decide +kernel
 
 end Pepper.C05
